@@ -82,6 +82,7 @@ META = {
 }
 
 RAW_CLASS = "docutils.nodes.raw"
+_BUILTINS = set(dir(__builtins__)) if not isinstance(__builtins__, dict) else set(__builtins__)
 
 # ---------------------------------------------------------------------------
 # small helpers
@@ -204,7 +205,7 @@ def _is_raw_ctor(call: ast.Call, fi: FunctionInfo, corpus: Corpus | None = None)
         if ci is not None and f"{ci.module.name}.{ci.name}" in names:
             return True
         # local alias: R = nodes.raw
-        if isinstance(call.func, ast.Name):
+        if isinstance(call.func, ast.Name) and full == d and d not in _BUILTINS:
             v = _deref(call.func, fi)
             dv = dotted(v) if v is not call.func else None
             if dv and fi.module.resolve(dv) in names:
@@ -259,7 +260,11 @@ def _is_raw_class(e: ast.expr | None, fi: FunctionInfo) -> bool:
 
 
 def _own_calls(fi: FunctionInfo) -> list[ast.Call]:
-    return calls_in(fi.node.body) if fi.is_lambda else calls_in(fi.node, into_lambdas=False)
+    c = fi.__dict__.get("_c20_calls")
+    if c is None:
+        c = calls_in(fi.node.body) if fi.is_lambda else calls_in(fi.node, into_lambdas=False)
+        fi.__dict__["_c20_calls"] = c
+    return c
 
 
 def _renderer_classes(corpus: Corpus) -> set[str]:
@@ -277,6 +282,8 @@ def _dispatch_targets(corpus: Corpus, call: ast.Call, fi: FunctionInfo) -> list[
     ``<x>.rules[<key>](...)`` and ``getattr(<x>, f"render_...")(...)`` -> every render_* method."""
     f = call.func
     hit = False
+    if isinstance(f, ast.Attribute) or (isinstance(f, ast.Name) and f.id in fi.params):
+        return []  # ordinary method / parameter call: never the dispatch
     if isinstance(f, ast.Subscript):
         v = _deref(f.value, fi)
         if isinstance(v, ast.Attribute) and v.attr == "rules":
@@ -312,6 +319,19 @@ def _dispatch_targets(corpus: Corpus, call: ast.Call, fi: FunctionInfo) -> list[
 def _reach(corpus: Corpus, entries: list[FunctionInfo], stop=None) -> dict[str, list[str]]:
     """Like CallGraph.reachable, plus the dispatch edges of `_dispatch_targets`."""
     g = get_callgraph(corpus)
+    succ_cache: dict[str, list[FunctionInfo]] = corpus.cache("c20-succ", dict)
+
+    def succ(fi: FunctionInfo) -> list[FunctionInfo]:
+        out = succ_cache.get(fi.fq)
+        if out is None:
+            out = [inner for inner in fi.module.functions.values() if inner.parent_func == fi]
+            for call, targets in g.callees(fi):
+                out.extend(g.flat_targets(targets))
+                if not any(isinstance(t, Special) for t in targets):
+                    out.extend(_dispatch_targets(corpus, call, fi))
+            succ_cache[fi.fq] = out
+        return out
+
     seen: dict[str, list[str]] = {}
     work = [(e, [e.fq]) for e in entries]
     while work:
@@ -321,16 +341,9 @@ def _reach(corpus: Corpus, entries: list[FunctionInfo], stop=None) -> dict[str, 
         seen[fi.fq] = chain
         if stop is not None and stop(fi):
             continue
-        for inner in fi.module.functions.values():
-            if inner.parent_func == fi and inner.fq not in seen:
-                work.append((inner, chain + [inner.fq]))
-        for call, targets in g.callees(fi):
-            ts = list(g.flat_targets(targets))
-            if not any(isinstance(t, Special) for t in targets):
-                ts += _dispatch_targets(corpus, call, fi)
-            for t in ts:
-                if t.fq not in seen:
-                    work.append((t, chain + [t.fq]))
+        for t in succ(fi):
+            if t.fq not in seen:
+                work.append((t, chain + [t.fq]))
     return seen
 
 
